@@ -163,3 +163,6 @@ func (l *Locks) At(in ssa.Instruction) LockSet {
 	}
 	return l.transfer(b, InstrIndex(in))
 }
+
+// LockOp classifies a call as a mutex operation on a struct field (exported form of lockOp).
+func LockOp(c ssa.CallInstruction) (key LockKey, op string, ok bool) { return lockOp(c) }
